@@ -30,11 +30,20 @@ pub fn stream_stats(file: &[u8], cuts: &[usize]) -> Result<StreamStats, String> 
 }
 
 pub fn stream_stats_opts(file: &[u8], cuts: &[usize], opts: &[bool; 5]) -> Result<StreamStats, String> {
+    stream_stats_route(file, cuts, opts, false)
+}
+
+/// `via_setters`: the options are installed through the public setters of `StreamingDecoder` instead of `DecodeOptions`
+pub fn stream_stats_route(file: &[u8], cuts: &[usize], opts: &[bool; 5], via_setters: bool) -> Result<StreamStats, String> {
     let file = file.to_vec();
     let cuts = cuts.to_vec();
     let opts = *opts;
     guarded(move || {
-        let mut dec = png::StreamingDecoder::new_with_options(decode_options(&opts));
+        let mut dec = match (via_setters, streaming_via_setters(&opts)) {
+            (true, Some(d)) => d,
+            (true, None) => panic!("StreamingDecoder::set_ignore_adler32 refused on a new decoder"),
+            _ => png::StreamingDecoder::new_with_options(decode_options(&opts)),
+        };
         let mut image_data: Vec<u8> = vec![];
         let mut st = StreamStats { calls: 0, zero_nothing: 0, max_zero_run: 0, consumed: 0, appended: 0, err: "ok".into() };
         let mut bounds = vec![0usize];
@@ -107,13 +116,25 @@ pub fn reader_stats(file: &[u8], cuts: &[usize], path: u8, limit: Option<usize>)
 }
 
 pub fn reader_stats_opts(file: &[u8], cuts: &[usize], path: u8, limit: Option<usize>, opts: &[bool; 5]) -> Result<ReaderStats, String> {
+    reader_stats_route(file, cuts, path, limit, opts, false)
+}
+
+/// `via_setters` (where `setters_representable(opts)`): the options are installed through the public `Decoder::ignore_checksums`,
+/// `set_ignore_text_chunk`, `set_ignore_iccp_chunk` on a `Decoder::new(..)`
+pub fn reader_stats_route(file: &[u8], cuts: &[usize], path: u8, limit: Option<usize>, opts: &[bool; 5], via_setters: bool) -> Result<ReaderStats, String> {
     let file = file.to_vec();
     let cuts = cuts.to_vec();
     let opts = *opts;
     guarded(move || {
         let rd = PieceReader::new(file, cuts);
         let counters = rd.counters.clone();
-        let mut dec = png::Decoder::new_with_options(rd, decode_options(&opts));
+        let mut dec = if via_setters && setters_representable(&opts) {
+            let mut d = png::Decoder::new(rd);
+            apply_decoder_setters(&mut d, &opts);
+            d
+        } else {
+            png::Decoder::new_with_options(rd, decode_options(&opts))
+        };
         if let Some(l) = limit {
             dec.set_limits(png::Limits { bytes: l });
         }
@@ -254,14 +275,20 @@ fn check(ctx: &mut Ctx, f: &corpus::TestFile, cuts: &[usize], sched: &str) {
 }
 
 fn check_opts(ctx: &mut Ctx, f: &corpus::TestFile, cuts: &[usize], sched: &str, opts: &[bool; 5]) {
-    let key = fnv64(&f.bytes) ^ fnv64(sched.as_bytes()) ^ fnv64(opts_string(opts).as_bytes());
-    let case = || J::obj().set("file", J::s(&hex(&f.bytes[..f.bytes.len().min(200_000)]))).set("file_len", J::i(f.bytes.len() as u64)).set("schedule", J::s(sched)).set("source", J::s(&f.source)).set("opts", J::s(&opts_string(opts)));
+    check_route(ctx, f, cuts, sched, opts, false)
+}
+
+/// `via_setters`: the same bounds with the options installed through the public setters of `Decoder` / `StreamingDecoder`
+fn check_route(ctx: &mut Ctx, f: &corpus::TestFile, cuts: &[usize], sched: &str, opts: &[bool; 5], via_setters: bool) {
+    let key = (via_setters as u64) << 63 ^ fnv64(&f.bytes) ^ fnv64(sched.as_bytes()) ^ fnv64(opts_string(opts).as_bytes());
+    let case = || J::obj().set("file", J::s(&hex(&f.bytes[..f.bytes.len().min(200_000)]))).set("file_len", J::i(f.bytes.len() as u64)).set("schedule", J::s(sched)).set("source", J::s(&f.source)).set("opts", J::s(&opts_string(opts))).set("via_setters", J::Bool(via_setters));
     watchdog::enter(&format!("{} {} bytes schedule {} {}", f.source, f.bytes.len(), sched, hex(&f.bytes[..f.bytes.len().min(4000)])));
     ctx.rep.eval(f.bytes.len() > 8, key);
     ctx.rep.count("source", &f.source);
     ctx.rep.count("schedule", sched);
     ctx.rep.count("options", &opts_string(opts));
-    match stream_stats_opts(&f.bytes, cuts, opts) {
+    ctx.rep.count("options route", if via_setters { "public setters" } else { "DecodeOptions" });
+    match stream_stats_route(&f.bytes, cuts, opts, via_setters) {
         Err(p) => ctx.rep.violation("oracle", "streaming/panic", &format!("update panicked: {}", p), case()),
         Ok(st) => {
             ctx.rep.count("streaming outcome", &st.err);
@@ -283,7 +310,7 @@ fn check_opts(ctx: &mut Ctx, f: &corpus::TestFile, cuts: &[usize], sched: &str, 
         }
     }
     for (path, limit) in [(0u8, None), (1, None), (2, None), (0, Some(40_000usize)), (2, Some(70_000))] {
-        match reader_stats_opts(&f.bytes, cuts, path, limit, opts) {
+        match reader_stats_route(&f.bytes, cuts, path, limit, opts, via_setters) {
             Err(p) => ctx.rep.violation("oracle", "reader/panic", &format!("Reader call panicked: {}", p), case().set("path", J::i(path))),
             Ok(st) => {
                 if st.fill_buf > 2 * st.bytes + 16 * (2 + st.frames) {
@@ -332,6 +359,12 @@ pub fn run(ctx: &mut Ctx) {
                 check_opts(ctx, f, &[], "whole", &opts);
                 check_opts(ctx, f, &c, "random", &opts);
             }
+            // the same switches thrown through the PUBLIC setters (Decoder::set_ignore_text_chunk / set_ignore_iccp_chunk /
+            // ignore_checksums; StreamingDecoder::set_*): an ignored chunk still has to be read past within the same bounds
+            for opts in [[true, false, true, false, true], [true, false, false, true, true], [true, true, true, true, true], [false, false, true, false, true]] {
+                check_route(ctx, f, &[], "whole", &opts, true);
+                check_route(ctx, f, &c, "random", &opts, true);
+            }
         }
         if i < 2 {
             ctx.rep.sample(J::obj().set("source", J::s(&f.source)).set("bytes", J::i(f.bytes.len() as u64)));
@@ -350,5 +383,5 @@ pub fn replay(ctx: &mut Ctx, case: &J) {
             opts[i] = ch == '1';
         }
     }
-    check_opts(ctx, &f, &cuts, sched, &opts);
+    check_route(ctx, &f, &cuts, sched, &opts, matches!(case.get("via_setters"), Some(J::Bool(true))));
 }
